@@ -221,7 +221,8 @@ DoRun(ev) ==
     ELSE IF ev.e = "Run" THEN Judge(ev, Continue(sess), "run", TRUE)
     ELSE IF ev.e = "CliRun" THEN
         \* one non-interactive run of the real binary: exit status, terminating signal, stdout lines, stderr text
-        LET refused == \/ ~Admissible(sess.ctx.script, RealLimits.elem)
+        LET refused == IF IsAuto(cur) THEN AutoSetup(cur).refused ELSE
+                       \/ ~Admissible(sess.ctx.script, RealLimits.elem)
                        \/ (sess.ctx.sigver \in {"BASE", "WITNESS_V0"} /\ Len(sess.ctx.script) > RealLimits.script)
                        \/ (Has(cur, "fmods") /\ ~ModifyFlags(StrToCodes(cur.fmods))[1])
                        \/ (Has(cur, "ptext") /\ ~PretendListWellFormed(cur.ptext))
@@ -229,11 +230,12 @@ DoRun(ev) ==
             expOut == CliOutcome(refused, exp)
             obsOut == [code |-> ev.code, sig |-> ev.sig, stdout |-> IF ev.code = 0 THEN ev.stdout ELSE <<>>]
             errOK == (expOut.code = 1 /\ ~refused /\ "errtext" \in SetOf(cur.cmp)) => ErrTextMatches(exp.vm.err, ev.err)
-        IN IF ~refused /\ exp.vm.status = "unspec" THEN /\ mode' = "skip" /\ stats' = Bump("unspec") /\ UNCHANGED <<divs, cov, sess, cur>>
+        IN IF (~refused /\ exp.vm.status = "unspec") \/ (IsAuto(cur) /\ refused /\ AutoSetup(cur).soft)
+           THEN /\ mode' = "skip" /\ stats' = Bump("unspec") /\ UNCHANGED <<divs, cov, sess, cur>>
            ELSE IF [code |-> expOut.code, sig |-> 0, stdout |-> expOut.stdout] = obsOut /\ errOK
                 THEN /\ mode' = "skip" /\ cov' = cov \cup {<<"cli", IF refused THEN "refused" ELSE exp.vm.err>>}
                      /\ stats' = Bump(IF expOut.code = 0 THEN "finished" ELSE "failed") /\ UNCHANGED <<divs, sess, cur>>
-                ELSE /\ divs' = Append(divs, Div("non-interactive run", [op |-> "cli", exp |-> expOut, err |-> exp.vm.err, refused |-> refused], ev))
+                ELSE /\ divs' = Append(divs, Div("non-interactive run", [op |-> "cli", exp |-> expOut, err |-> IF refused THEN "refused" ELSE exp.vm.err, refused |-> refused], ev))
                      /\ mode' = "skip" /\ UNCHANGED <<cov, sess, cur, stats>>
     ELSE IF ev.e = "Exec" THEN
         LET a == AssembleExec(ev.toks)
@@ -286,7 +288,7 @@ Finished == l = Len(Tr) + 1
 WriteResult == Finished => ndJsonSerialize(OutFile, <<Result>>)
 \* the spec's own invariants, evaluated at every state of every implementation trace
 TypeOK == /\ mode \in {"idle", "await", "run", "skip", "vonly"}
-          /\ (mode = "run" => /\ sess.vm.status \in {"running", "ok"}
+          /\ ((mode = "run" /\ "vm" \in DOMAIN sess) => /\ sess.vm.status \in {"running", "ok"}
                               /\ Len(sess.vm.stack) + Len(sess.vm.alt) <= RealLimits.stack
                               /\ sess.vm.pc <= Len(sess.ctx.script)
                               /\ sess.vm.cbegin <= sess.vm.pc
